@@ -62,7 +62,7 @@ THEOREMS = [P + t for t in (
     # _dict_diff / _dict_common go by key alone: nothing stored under a key decides, no child drops out (C17-r4-1)
     "dict_select_by_key_only", "dict_partition_by_key",
     # the value classes' own equality (Labels / Capacities / JSONData.__eq__ as written)
-    "fields_eq_is_dict_equality", "fields_eq_refl", "user_data_eq_equivalence", "user_data_member_order_irrelevant",
+    "fields_eq_is_dict_equality", "fields_eq_refl", "field_value_change_is_reported", "user_data_eq_equivalence", "user_data_member_order_irrelevant",
     "user_data_types_distinct", "prop_diff_on_values", "prop_diff_on_values_self")]
 TRUSTED_BASE = [
     "gen/diffcfg.py: a symbolic evaluator of the restricted Python the three diff methods, prop_diff and the value classes' __eq__ "
@@ -77,7 +77,8 @@ TRUSTED_BASE = [
     "Model/DiffVal.lean mirrors Labels.__eq__/Capacities.__eq__ (loop over self.__dict__ with the extracted default for a missing "
     "field) and JSONData.__eq__ (same class, canonical text; a decoded JSON value with number tokens as Python prints them stands "
     "for its canonical text - json.dumps(sort_keys=True) is assumed injective on key-sorted values); checked against the real "
-    "==/!= on pool and random values incl. instances lacking a field; the canonical strings the harness sends for property values "
+    "==/!= on pool and random values incl. instances lacking a field and, for every field the Labels class defines, a value against "
+    "its relatives (case, blanks, leading zeros, equivalent address spellings, prefix, list order; `field_value_change_is_reported`); the canonical strings the harness sends for property values "
     "are checked against the real == on the same values in every run",
     "the edit-script semantics of the theorems (Lemmas/C17Script.lean: applyNode/applySvc/applyIface, expNode/expSvc/expIface) are "
     "hand-written; checked differentially: `apply` against the real add_*/remove_*/set_* calls on a deep copy, `expect` against "
@@ -109,7 +110,10 @@ ASSUMPTIONS = [
 ]
 RULE = ("node / service / interface sliver trees (<=4 components of every ComponentType, <=3 node-level services, <=4 interfaces of every "
         "InterfaceType per service, <=3 sub-interfaces per dedicated port; label/capacity/user-data values from a small pool with "
-        "equal-valued but differently written user data), deep-copied, hierarchical edit scripts of 0..8 non-conflicting edits "
+        "equal-valued but differently written user data, plus for EVERY field of the Labels class a base value and its relatives under "
+        "the usual normalisations - letter case, blanks, leading zeros, another spelling of the same address, a prefix, list order / "
+        "multiplicity, one-element list vs string - as far as the constructor accepts them; an edit replaces the old labels by a relative "
+        "of them in a quarter of the label edits; child names related by case / blank / leading zero), deep-copied, hierarchical edit scripts of 0..8 non-conflicting edits "
         "(add/remove component, node-level service, interface, sub-interface; set labels/capacities/user data at every level, sometimes "
         "to the old value; equal-valued user data set on both sides); independently generated pairs over shared name pools (kind "
         "collisions, None / empty / filled *Info on either side, renames); topologies edited through the user API (add/remove "
@@ -131,10 +135,14 @@ FLAG_NAMES = ["LABELS", "CAPACITIES", "USER_DATA", "SUB_INTERFACES"]
 
 LABEL_POOL = [None, {"vlan": "100"}, {"vlan": "101"}, {"ipv4": "192.168.1.1"}, {"ipv4": "192.168.1.2"},
               {"vlan": "100", "local_name": "p1"}, {"mac": "00:11:22:33:44:55"}, {"vlan_range": ["1-10", "20-30"]}, {}]
-CAP_POOL = [None, {"bw": 10}, {"bw": 100}, {"core": 2, "ram": 8}, {"core": 2, "ram": 8, "disk": 10}, {"unit": 1}, {"bw": 0}, {}]
+CAP_POOL = [None, {"bw": 10}, {"bw": 100}, {"core": 2, "ram": 8}, {"core": 2, "ram": 8, "disk": 10}, {"unit": 1}, {"bw": 0}, {},
+            # neighbouring fields, and integers past 2**53 (a comparison through floats conflates them)
+            {"cpu": 2}, {"core": 2}, {"bw": 2 ** 53}, {"bw": 2 ** 53 + 1}, {"mtu": 9000}, {"mtu": 9001}, {"burst_size": 9000}]
 # user data as *text*; several spellings of the same JSON value
 UD_POOL = [None, '{}', '{"a": 1}', '{"a":1}', '{ "a" : 1 }', '{"a": 1, "b": [1, 2]}', '{"b": [1, 2], "a": 1}',
-           '{"a": 2}', '[1, 2, 3]', '"x"', '{"a": {"y": null, "x": true}}', '{"a": {"x": true, "y": null}}', '{"f": 1.5}', '{"a": 1.0}']
+           '{"a": 2}', '[1, 2, 3]', '"x"', '{"a": {"y": null, "x": true}}', '{"a": {"x": true, "y": null}}', '{"f": 1.5}', '{"a": 1.0}',
+           # the same document with only the letter case of a string value / of a key changed
+           '{"name": "Alpha"}', '{"name": "alpha"}', '{"Name": "Alpha"}']
 
 
 def canon_labels(d):
@@ -143,6 +151,105 @@ def canon_labels(d):
 
 def canon_caps(d):
     return None if d is None else "C" + canon({k: v for k, v in d.items() if v not in (None, 0)})
+
+
+# ---------------------------------------------------------------------------------------------
+# values RELATED by a normalisation a well-meant equality might apply (C17-r6-1: Labels.__eq__ lower-casing strings): letter case,
+# surrounding blanks, leading zeros, an equivalent spelling of the same address, a prefix, the order / multiplicity of a list's
+# elements, a one-element list against the bare string.  For the comparison they are different values: the classes compare the
+# stored strings as they are.  The families are built for EVERY field the Labels class defines now (read from the class), from a
+# base value with letters in both cases where the field's validator admits them; a relative is kept when the constructor accepts
+# it, so the families follow the validators of the tree under test.
+
+NEAR_BASE = {
+    "bdf": "0000:AF:00.0", "mac": "AA:bb:CC:dd:EE:0f", "ipv4": "192.168.1.10", "ipv4_range": "192.168.1.1-192.168.1.10",
+    "ipv4_subnet": "192.168.1.0/24", "ipv6": "2001:0DB8:85a3:0000:0000:8A2e:0370:7334",
+    "ipv6_range": "2001:0DB8::1-2001:0db8::FF", "ipv6_subnet": "2001:0DB8:85a3::/48", "asn": "65001", "vlan": "100",
+    "vlan_range": ["1-10", "20-30"], "inner_vlan": "7", "instance": "Instance-001A", "instance_parent": "renc-W1.fabric-testbed.net",
+    "local_name": "HundredGigE0/0/0/5", "local_type": "Ethernet", "device_name": "Tesla-A30", "bgp_key": "SecretKey/AbCdEf",
+    "account_id": "Acct-XyZ-0042", "region": "US-East1", "usb_id": "1a2b:3c4d", "numa": "0",
+}
+# other spellings of the same address / number (a parser-based comparison would conflate them)
+NEAR_ALT = {
+    "ipv4": ["192.168.001.010", "192.168.01.10"], "ipv6": ["2001:db8:85a3::8a2e:370:7334", "2001:DB8:85A3:0:0:8A2E:370:7334"],
+    "ipv6_subnet": ["2001:db8:85a3:0::/48"], "vlan": ["0100"], "inner_vlan": ["07", "007"], "asn": ["065001"], "numa": ["-0", "00"],
+    "vlan_range": [["01-10", "20-30"], "1-10", ["1-10"]], "ipv4_subnet": ["192.168.1.0/024", "192.168.001.0/24"],
+}
+NEAR_STR = [("lower", str.lower), ("upper", str.upper), ("swapcase", str.swapcase), ("capitalize", str.capitalize),
+            ("lead-blank", lambda s: " " + s), ("trail-blank", lambda s: s + " "), ("lead-zero", lambda s: "0" + s),
+            ("prefix", lambda s: s[:-1]), ("trail-newline", lambda s: s + "\n")]
+_near_cache = {}
+
+
+def label_ok(d):
+    try:
+        R.load().Labels(**d)
+        return True
+    except Exception:
+        return False
+
+
+def near_values(v):
+    """[(how, relative)] of one field value"""
+    out = []
+    if isinstance(v, str):
+        out = [(h, f(v)) for h, f in NEAR_STR] + [("as-list", [v])]
+    elif isinstance(v, list) and v:
+        out = [("reversed", list(reversed(v))), ("sorted", sorted(v)), ("duplicated", v + v[:1]), ("first-only", v[:1])]
+        if len(v) == 1:
+            out.append(("as-string", v[0]))
+        for h, f in NEAR_STR[:4]:
+            out.append((h, [f(x) for x in v]))
+    return out
+
+
+def label_relatives(d):
+    """label dictionaries the constructor accepts that differ from d in ONE field's value, by one of the normalisations above"""
+    if not d:
+        return []
+    key = canon(d)
+    if key not in _near_cache:
+        seen, out = {key}, []
+        for f in sorted(d):
+            for how, w in near_values(d[f]) + [("alt", a) for a in NEAR_ALT.get(f, []) if d[f] == NEAR_BASE.get(f)]:
+                e = dict(d)
+                e[f] = w
+                if canon(e) not in seen and label_ok(e):
+                    seen.add(canon(e))
+                    out.append((how, e))
+        _near_cache[key] = out
+    return [e for _, e in _near_cache[key]]
+
+
+def label_families():
+    """[(field, [base dict, relative dict, ...])] for every field of the Labels class"""
+    if "families" not in _near_cache:
+        r = R.load()
+        fams = []
+        for f in r.Labels().__dict__:
+            cands = [NEAR_BASE.get(f), (r.Labels.VALIDATORS.get(f) or (None, None))[1] if hasattr(r.Labels, "VALIDATORS") else None, "Ab-Cd.01x", "10"]
+            base = next(({f: c} for c in cands if c is not None and label_ok({f: c})), None)
+            if base is not None:
+                fams.append((f, [base] + label_relatives(base)))
+        _near_cache["families"] = fams
+    return _near_cache["families"]
+
+
+def near_label_pool():
+    if "pool" not in _near_cache:
+        _near_cache["pool"] = [d for _, fam in label_families() for d in fam]
+    return _near_cache["pool"]
+
+
+def g_labels(rng):
+    """a label value for a spec: the small pool, or (3 in 10) a member of one of the families"""
+    return rng.choice(near_label_pool()) if rng.random() < 0.3 else rng.choice(LABEL_POOL)
+
+
+# user data: the same document with a letter's case / a blank / the composition of a character changed in a string value or a key
+UD_NEAR = ['{"name": "Alpha"}', '{"name": "alpha"}', '{"name": "ALPHA"}', '{"Name": "Alpha"}', '{"name": "Alpha "}', '{"name": " Alpha"}',
+           '{"name": "caf\\u00e9"}', '{"name": "cafe\\u0301"}', '{"name": ["Alpha"]}', '{"tags": ["a", "B"]}', '{"tags": ["A", "b"]}',
+           '{"tags": ["B", "a"]}', '{"n": "1"}', '{"n": 1}', '{"n": "01"}']
 
 
 # user data handed over as a Python OBJECT (the other construction path of JSONData): {"py": "<python literal>"}.  Non-string keys
@@ -884,7 +991,7 @@ def ids_below(s):
 
 
 def g_props(rng, dense=0.5):
-    return [rng.choice(LABEL_POOL) if rng.random() < dense else None,
+    return [g_labels(rng) if rng.random() < dense else None,
             rng.choice(CAP_POOL) if rng.random() < dense else None,
             rng.choice(UD_SLIVER_POOL if rng.random() < 0.4 else UD_POOL) if rng.random() < dense else None]
 
@@ -940,7 +1047,8 @@ def g_pe(rng, old, p=0.35):
     """props edit; sometimes sets the old value again (an edit that changes nothing)"""
     pe = {}
     if rng.random() < p:
-        pe["labels"] = [old[0] if rng.random() < 0.15 else rng.choice(LABEL_POOL)]
+        rel = label_relatives(old[0]) if rng.random() < 0.4 else []   # 0.25 of the label edits: a relative of the old value
+        pe["labels"] = [old[0] if rng.random() < 0.15 else rng.choice(rel) if rel else g_labels(rng)]
     if rng.random() < p:
         pe["caps"] = [old[1] if rng.random() < 0.15 else rng.choice(CAP_POOL)]
     r = rng.random()
@@ -1039,6 +1147,32 @@ def corner_cases():
     cs.append({"kind": "node", "tree": empties, "script": {"pe": {"labels": [None]}, "comp": {"gpu1": {"pe": {"caps": [None]}}}}})
     cs.append({"kind": "svc", "tree": empties["comps"][0]["svcs"][0], "script": {"iface": {"p1": {"pe": {"caps": [{}]}, "sub": {"p1.1": {"labels": [{}]}}}}}})
     cs.append({"kind": "iface", "tree": empties["comps"][0]["svcs"][0]["ifs"][0], "script": {"sub": {"p1.1": {"caps": [None]}}}})
+    # a label / user-data value replaced by a relative of it (only the letter case, a blank, a leading zero, the order of a list
+    # ... differs: NEAR_*), alone, at every level and seen through every diff method: LABELS / USER_DATA on exactly that element
+    nb = lambda *fs: {f: NEAR_BASE[f] for f in fs}
+    L = lambda d: [d, None, None]
+    near = node([comp("nic1", "SmartNIC", [svc("nic1-ns", [ded("p1", [leaf("p1.1", L(nb("vlan", "bgp_key", "account_id", "region")))],
+                                                              L(nb("mac", "local_name")))], L(nb("local_type")))], L(nb("bdf"))),
+                 comp("gpu1", "GPU", None, [nb("bdf", "device_name"), None, '{"name": "Alpha"}'])],
+                [svc("ns1", [shp("q1")], L(nb("vlan_range", "ipv6")))], L(nb("instance", "instance_parent")))
+    nnic = near["comps"][0]["svcs"][0]
+    np1 = nnic["ifs"][0]
+    for lvl, old, path in (("node", near["p"][0], lambda pe: {"pe": pe}), ("comp", near["comps"][1]["p"][0], lambda pe: {"comp": {"gpu1": {"pe": pe}}}),
+                           ("nic", near["comps"][0]["p"][0], lambda pe: {"comp": {"nic1": {"pe": pe}}}),
+                           ("ns", near["svcs"][0]["p"][0], lambda pe: {"svc": {"ns1": {"pe": pe}}}),
+                           ("nic-svc", nnic["p"][0], lambda pe: {"comp": {"nic1": {"svc": {"pe": pe}}}}),
+                           ("port", np1["p"][0], lambda pe: {"comp": {"nic1": {"svc": {"iface": {"p1": {"pe": pe}}}}}}),
+                           ("sub", np1["subs"][0]["p"][0], lambda pe: {"comp": {"nic1": {"svc": {"iface": {"p1": {"sub": {"p1.1": pe}}}}}}})):
+        for e in label_relatives(old):
+            sc = path({"labels": [e]})
+            cs.append({"kind": "node", "tree": near, "script": sc})
+            if lvl in ("nic-svc", "port", "sub"):
+                sc = sc["comp"]["nic1"]["svc"]
+                cs.append({"kind": "svc", "tree": nnic, "script": sc})
+                if lvl != "nic-svc":
+                    cs.append({"kind": "iface", "tree": np1, "script": sc["iface"]["p1"]})
+    for ud in ('{"name": "alpha"}', '{"Name": "Alpha"}', '{"name": "Alpha "}'):
+        cs.append({"kind": "node", "tree": near, "script": {"comp": {"gpu1": {"pe": {"ud": [ud]}}}}})
     # one elementary edit each, on the full tree
     one = [
         {"pe": {"labels": [{"vlan": "7"}]}}, {"pe": {"caps": [{"bw": 5}]}}, {"pe": {"ud": ['{"z": 1}']}}, {"pe": {"ud": ['{ "a":1 }']}},
@@ -1174,6 +1308,12 @@ def gen_pairs(rng, n):
     return out
 
 
+def near_props(rng, p):
+    """the properties with the labels replaced by a relative of theirs (a family member when there are no labels to start from)"""
+    rel = label_relatives(p[0])
+    return [rng.choice(rel) if rel else rng.choice(near_label_pool()), p[1], p[2]]
+
+
 def perturb_iface(rng, x):
     y = copy.deepcopy(x)
     r = rng.random()
@@ -1185,6 +1325,8 @@ def perturb_iface(rng, x):
         y["subs"] = rng.choice([None, [], [g_leaf(rng, "%s.%d" % (y["n"], j)) for j in range(rng.randrange(1, 3))]])
     elif r < 0.7:
         y["p"] = g_props(rng)
+    elif r < 0.8:
+        y["p"] = near_props(rng, y["p"])
     return y
 
 
@@ -1204,6 +1346,8 @@ def perturb_comp(rng, c):
             s0["n"] = s0["n"] + "x"                                # the first service under another name
     elif r < 0.8:
         y["p"] = g_props(rng)
+    elif r < 0.9:
+        y["p"] = near_props(rng, y["p"])
     return y
 
 
@@ -1259,6 +1403,22 @@ def corner_pairs():
         out.append({"kind": "node", "pair": [
             dict(node([wid(comp("nic1", "SmartNIC", [wid(svc("nic1-ns", [wid(ifc("p1", "DedicatedPort", [wid(leaf("p1.1", pa), "ch-1")]), "i-1")]), "s-1")]), "c-1")]), id="N1"),
             dict(node([wid(comp("nic1", "SmartNIC", [wid(svc("nic1-ns", [wid(ifc("p1", "DedicatedPort", [wid(leaf("p1.1", pb), "ch-2")]), "i-2")]), "s-2")]), "c-2")]), id="N1")]})
+    # names RELATED by a normalisation (letter case, dash / underscore, a leading zero) are different children at every level: one renamed into
+    # the other is a removal + an addition, both on one side against one on the other is one common child + one removed / added
+    for n1, n2 in (("gpu1", "GPU1"), ("Gpu1", "gPU1"), ("gpu-1", "gpu_1"), ("gpu1", "gpu01")):
+        for level in ("comp", "ns", "if", "sub"):
+            kid = {"comp": lambda n, p: comp(n, "GPU", None, p), "ns": lambda n, p: svc(n, None, p),
+                   "if": lambda n, p: ifc(n, "SharedPort", None, p), "sub": lambda n, p: leaf(n, p)}[level]
+            wrap = {"comp": lambda ks: ("node", node(ks, None)), "ns": lambda ks: ("node", node(None, ks)),
+                    "if": lambda ks: ("svc", svc("ss", ks)), "sub": lambda ks: ("iface", ifc("pp", "DedicatedPort", ks))}[level]
+            for xa, xb in (([kid(n1, L)], [kid(n2, L)]), ([kid(n1, L)], [kid(n2, L2)]), ([kid(n1, L), kid(n2, L)], [kid(n1, L2)]),
+                           ([kid(n2, L)], [kid(n1, L), kid(n2, L2)])):
+                (k, ta), (_, tb) = wrap(xa), wrap(xb)
+                out.append({"kind": k, "pair": [ta, tb]})
+                if level == "sub":
+                    out.append({"kind": "svc", "pair": [svc("ss", [ta]), svc("ss", [tb])]})
+                    out.append({"kind": "node", "pair": [node([comp("nic1", "SmartNIC", [svc("nic1-ns", [ta])])]),
+                                                         node([comp("nic1", "SmartNIC", [svc("nic1-ns", [tb])])])]})
     return out
 
 
@@ -1271,7 +1431,10 @@ def corner_pairs():
 
 TOPO_MODELS = ["SmartNIC_ConnectX_6", "SmartNIC_ConnectX_5", "SmartNIC_BlueField_2_ConnectX_6", "SharedNIC_ConnectX_6", "GPU_RTX6000",
                "GPU_Tesla_T4", "NVME_P4510", "FPGA_Xilinx_U280"]
-TOPO_LABELS = [{"ipv4": "192.168.1.1"}, {"ipv4": "192.168.1.2"}, {"bdf": "0000:41:00.0"}, {"mac": "00:11:22:33:44:55"}]
+TOPO_LABELS = [{"ipv4": "192.168.1.1"}, {"ipv4": "192.168.1.2"}, {"bdf": "0000:41:00.0"}, {"mac": "00:11:22:33:44:55"},
+               # pairs that differ in letter case only (fields every element type of the user API accepts)
+               {"bdf": "0000:AF:00.0"}, {"bdf": "0000:af:00.0"}, {"mac": "AA:bb:CC:dd:EE:0f"}, {"mac": "aa:bb:cc:dd:ee:0f"},
+               {"local_name": "HundredGigE0/0/0/5"}, {"local_name": "hundredgige0/0/0/5"}]
 TOPO_CAPS = [{"core": 2, "ram": 8}, {"core": 4, "ram": 8, "disk": 10}, {"unit": 1}, {"bw": 10}]
 
 
@@ -1589,7 +1752,32 @@ def corner_topo():
         {"kind": "topo", "init": [], "ops": [["add_ns", "ns1"]]},
         {"kind": "topo", "init": [["add_ns", "ns1"]], "ops": [["rm_ns", "ns1"], ["node_props", {"caps": [{"core": 2, "ram": 8}]}]]},
         {"kind": "topo", "init": [["add_comp", "nic1", "SharedNIC_ConnectX_6"]], "ops": [["comp_props", "nic1", {"ud": ['{"a": 1}']}]]},
-    ] + corner_topo_readd()
+    ] + corner_topo_readd() + corner_topo_near()
+
+
+def corner_topo_near():
+    """a label of a library-built element replaced by a relative of it (letter case, blank, leading zero ...) through
+    set_properties, at every level of the user API and seen through every view (C17-r6-1)"""
+    T = lambda init, ops, view=None: dict({"kind": "topo", "init": init, "ops": ops}, **({"view": view} if view else {}))
+    nic = ["add_comp", "nic1", "SmartNIC_ConnectX_6"]
+    gpu = ["add_comp", "gpu1", "GPU_RTX6000"]
+    sub = ["add_sub", "nic1", 0, "sub1", "101"]
+    nb = lambda *fs: {f: NEAR_BASE[f] for f in fs}
+    scalar = lambda d: all(isinstance(v, str) for v in d.values())      # the user API's property layer: plain strings only here
+    out = []
+    for base, mk, init, views in (
+            (nb("instance", "instance_parent"), lambda d: ["node_props", {"labels": [d]}], [nic], (None,)),
+            (nb("bdf", "device_name"), lambda d: ["comp_props", "gpu1", {"labels": [d]}], [nic, gpu], (None,)),
+            (nb("local_name", "mac"), lambda d: ["port_props", "nic1", 0, {"labels": [d]}], [nic, sub],
+             (None, ["comp_svc", "nic1"], ["port", "nic1", 0])),
+            (nb("vlan", "bgp_key", "account_id", "region"), lambda d: ["sub_props", "nic1", 0, "sub1", {"labels": [d]}], [nic, sub],
+             (None, ["comp_svc", "nic1"], ["port", "nic1", 0])),
+            (nb("vlan", "local_name"), lambda d: ["ns_props", "ns1", {"labels": [d]}], [["add_ns", "ns1"]], (None,))):
+        rel = [e for e in label_relatives(base) if scalar(e)]
+        for e in rel[::3] + [x for x in rel if any(isinstance(v, str) and v != base[k] and v.lower() == base[k].lower() for k, v in x.items())][:2]:
+            for view in views:
+                out.append(T(init + [mk(base)], [mk(e)], view))
+    return out
 
 
 def corner_topo_readd():
@@ -1703,6 +1891,19 @@ def gen_values(rng, n):
     for a in upool:
         for b in upool:
             out.append(("U", None if a is None else r.UserData(a), None if b is None else r.UserData(b), True))
+    # every field of Labels: a base value against its relatives (letter case, blanks, leading zeros, another spelling of the same
+    # address, a prefix, list order / multiplicity, one-element list vs string), both ways round, and the relatives in a ring
+    for f, fam in label_families():
+        for i, d in enumerate(fam[1:], 1):
+            out.append(("L", lab(fam[0]), lab(d), True))
+            out.append(("L", lab(d), lab(fam[0]), True))
+            out.append(("L", lab(d), lab(fam[i % (len(fam) - 1) + 1]), True))
+    for d in lpool[1:]:
+        for e in label_relatives(d):
+            out.append(("L", lab(d), lab(e), True))
+    for a in UD_NEAR:
+        for b in UD_NEAR:
+            out.append(("U", r.UserData(a), r.UserData(b), True))
     # Labels / Capacities through their construction paths as well: keyword arguments, from_json(to_json()), JSONField.update, deep copy,
     # pickle - all pairs (judged by the field dictionaries the instances really have)
 
